@@ -167,7 +167,7 @@ PROPS['C05'] = {
 }
 
 _ALLOC_RULE = ("enumeration shared by C15/C16: operation in {TryFrom<Vec>, TryFrom<Box<[T]>>, From<GA> for Vec / Box<[T]>, into_boxed_slice, into_vec, try_from_boxed_slice, try_from_vec, try_boxed_from_iter, boxed from_iter, "
-               "boxed into_iter (dropped after 0,1,N/2,N items), box_arr![x; N], default_boxed, boxed generate, boxed map/zip/fold/clone} x N in {0..8,16,33,100,1024} x element in {4-byte tracked, zero-sized tracked} (+ u8, u64, () for N<=8 and 33) "
+               "boxed into_iter (dropped after 0,1,N/2,N items), box_arr![x; N], default_boxed, boxed generate, boxed map/zip/fold/clone, boxed map to a same-size lower-alignment type and to a larger type} x N in {0..8,16,33,100,1024} x element in {4-byte tracked, zero-sized tracked} (+ u8, u64, () for N<=8 and 33) "
                "x source length L in {0,N-1,N,N+1,N+3} x Vec capacity in {len, len+1, 2len+3}; ")
 
 PROPS['C15'] = {
@@ -363,7 +363,7 @@ PROPS['C14'] = {
     'rule': ("N in {0..17,31,32,33,63,64,65,1023,1024,1025,2047,2048,2049,3000,4096} (the three internal strategies and their thresholds) x contents a_k[i] = (37 i + k) mod 256 for all 256 k (N > 65 in the quick tier: 16 values of k) - so every byte "
              "value occurs at every index - plus all-0x00, all-0xFF and i mod 256 x {:x}, {:X} x precision none and every p in 0..=2N+2 (N <= 65) or the lattice {0,1,2,3,31..33,63..65,2047..2050,4095..4097,6143..6145,N-1,N,N+1,2N-3..2N+1,2N+7} x two builds "
              "of the crate (default features, faster-hex). A case is one (N, pattern) with all its precisions and both cases; non-trivial = N > 0. Oracle: output == first min(p, 2N) characters of the concatenated two-digit forms; the digests of all outputs "
-             "of the two builds must be equal. Width, fill and '#' flags are not part of the statement and are not asserted."),
+             "of the two builds must be equal. Ten further format specs with width, fill, alignment, sign, zero-padding and '#' flags must still print exactly the digits ('and nothing else')."),
     'exhaustive': True,
     'exhaustive_scope': "byte-at-index x precision for the listed N; not all 256^N contents (every byte value occurs at every index, not every combination of neighbours)",
     'assumptions': COMMON_ASSUME + ["faster-hex 0.10 from the offline cargo cache; CPU feature dispatch inside faster-hex follows this machine's CPU (AVX2/SSE4.1 paths as detected at run time)"],
